@@ -734,7 +734,7 @@ func c26Specs(r *ev.R) []c26Spec {
 			c26Spec{Name: "rpc-cancel-late-answer-next-call-atomics", Callers: cancelLate, Peer: map[string]string{"a1": "late"}, Atomics: true, Bound: 3},
 			c26Spec{Name: "rpc-never-close-timer-atomics", Callers: two, Peer: map[string]string{"a1": "never"}, CloseAt: 1, Atomics: true, Bound: 3},
 			// deeper bound on the smallest colliding script
-			c26Spec{Name: "rpc-2calls-cancel-late-bound4", Callers: cancelLate, Peer: map[string]string{"a1": "late", "b1": "err"}, Bound: 4},
+			c26Spec{Name: "rpc-1caller-cancel-late-bound4", Callers: [][]c26CallSpec{c26Calls(c26Cancel("a1", 1), c26Bg("a2"))}, Peer: map[string]string{"a1": "late"}, Bound: 4},
 		)
 	}
 	return specs
